@@ -143,4 +143,11 @@ claim("C14",
       "processed; Tree.mrca re-encodes when asked and treemeasure.patristic_distance forwards the flag. NOT decided: that the sums are the true path sums for every "
       "tree, the summaries, and everything about NJ and UPGMA (numeric; out of reach of this family).",
       NOTE, "DESIGN.md section 2, C14 (as built: section 8)")
-na("C17", "formula correctness and floating-point threshold behaviour are value-level; the only shape fact would be a frozen source fragment, which is a false alarm in waiting")
+claim("C17",
+      "decision-table evaluation of option gates and dispatch chains, CFG reachability of the error, recurrence-orientation and inverse-formula agreement, symmetry of positional child uses",
+      "Static, structure only: the ultrametricity error is unreachable under a forcing option or precision None/False and reachable otherwise, compares every remaining child's "
+      "(age + length) with the node's age and rejects only a strictly greater difference; the forcing options take max / min over (age + length) of all children and both together are "
+      "refused; ages, depths and root distances follow recurrences that point the right way, and lengths-from-ages is the algebraic inverse of ages-from-lengths; the normalisation options "
+      "of the Colless and Sackin statistics dispatch as documented (unknown -> TypeError, None/False -> raw); positional child picks enter symmetric expressions only; treeness is "
+      "internal/(internal+external). NOT decided: the numeric value of any age, count or statistic, floating-point behaviour at the threshold, B1 / N-bar / gamma formulas.",
+      NOTE, "DESIGN.md section 2, C17 (as built: section 8)")
